@@ -1,6 +1,7 @@
 import TunnoxModel.Proofs.C02
 import TunnoxModel.Proofs.C02Reattach
 import TunnoxModel.Proofs.C02RC
+import TunnoxModel.Proofs.C02Xnode
 /-!
 # C02 — a tunnel is a transparent, ordered, loss-free byte pipe between its ends
 
@@ -181,6 +182,66 @@ theorem C02_no_spontaneous_close (lim : Limiter) (sr tr : List ReadEv) (sw tw : 
       · simp [e, Bridge.finished, hfin.1, hfin.2]
   · have hf : b.finished = false := by simpa using hfin
     simp [Bridge.lifecycleEnd, hf, Bridge.obs]
+
+/-! ### A tunnel whose target end is attached on another node (two relay hops) -/
+
+/-- **Across two nodes, any faults**: whatever the read and write scripts of the two hops and however the
+cross-node connection segments the stream, what arrives at the far end is a prefix of what was sent, and it is
+all of it when both hops ran to the end of their stream. -/
+theorem C02_xnode_prefix (rs : List ReadEv) (ws1 ws2 : List WriteEv) (cut : Bytes → List Bytes)
+    (hcut : ∀ d, (cut d).flatten = d) :
+    (relay2 rs ws1 cut ws2).1.delivered <+: allData rs ∧
+    ((relay2 rs ws1 cut ws2).2.1 = .eof → (relay2 rs ws1 cut ws2).2.2 = .eof →
+      (relay2 rs ws1 cut ws2).1.delivered = allData rs) := by
+  obtain ⟨p1, hd1, hp1, _, _, _, hf1⟩ := copy_spec none rs ws1 {}
+  obtain ⟨p2, hd2, hp2, _, _, _, hf2⟩ :=
+    copy_spec none (writesAsReads (cut (copy none rs ws1 {}).1.delivered)) ws2 {}
+  have hd1' : (copy none rs ws1 {}).1.delivered = p1 := by simpa using hd1
+  have hd2' : (copy none (writesAsReads (cut (copy none rs ws1 {}).1.delivered)) ws2 {}).1.delivered = p2 := by
+    simpa using hd2
+  rw [allData_writesAsReads, hcut] at hp2 hf2
+  simp only [relay2]
+  rw [hd2']
+  refine ⟨List.IsPrefix.trans (hd1' ▸ hp2) hp1, fun h2 h1 => ?_⟩
+  rw [hf2 h2, hd1', hf1 h1]
+
+/-- **Across two nodes, neither end closing early** (every write size, every number of writes, every
+segmentation by the cross-node connection — no deadline or timer appears in the relays): everything each end
+wrote reaches the other end, followed by the end of the stream. -/
+theorem C02_xnode_main (down up : List Bytes) (cutD cutU : Bytes → List Bytes)
+    (hD : ∀ d, (cutD d).flatten = d) (hU : ∀ d, (cutU d).flatten = d) :
+    holdsXnode down up (xnodeObs down up cutD cutU) = true := by
+  have one : ∀ (cs : List Bytes) (cut : Bytes → List Bytes), (∀ d, (cut d).flatten = d) →
+      (relay2 (writesAsReads cs) [] cut []).1.delivered = cs.flatten ∧
+      (relay2 (writesAsReads cs) [] cut []).2.1 = .eof ∧ (relay2 (writesAsReads cs) [] cut []).2.2 = .eof := by
+    intro cs cut hcut
+    obtain ⟨h1d, h1e⟩ := copy_writesAsReads cs
+    simp only [relay2]
+    rw [h1d]
+    obtain ⟨h2d, h2e⟩ := copy_writesAsReads (cut cs.flatten)
+    exact ⟨by rw [h2d, hcut], h2e, h1e⟩
+  obtain ⟨a1, a2, a3⟩ := one down cutD hD
+  obtain ⟨b1, b2, b3⟩ := one up cutU hU
+  simp [holdsXnode, xnodeObs, a1, a2, a3, b1, b2, b3]
+
+/-- Non-vacuity: a concrete two-way run through both hops, the connection cutting the stream into single
+bytes, satisfies the predicate — and a run that lost the tail of one direction does not. -/
+example : holdsXnode [[1, 2], [3]] [[9]] (xnodeObs [[1, 2], [3]] [[9]] (fun d => d.map ([·])) (fun d => [d])) = true := by
+  decide
+example : holdsXnode [[1, 2], [3]] [[9]] ⟨[1, 2], [9], true, true⟩ = false := by decide
+
+/-- T2 tie: the target node's relay is two plain `io.Copy` loops, each followed by a half-close of the side it
+wrote to, and the attach path writes the ready frame and hands the same connection to that relay — nothing
+between dial and relay arms a timer on it. -/
+theorem skel_forwardToSourceNode :
+    Skel.forwardToSourceNode = ["tunnelConnMgr.CreateDedicatedConnection", "crossNodePool.Get",
+      "crossConn.GetTCPConn", "WriteFrame", "runCrossNodeDataForwardDedicated"] := by decide
+theorem skel_runCrossNodeDataForwardDedicated :
+    Skel.runCrossNodeDataForwardDedicated = ["tunnelConnMgr.CloseTunnel", "tcpConn.Close", "netConn.Close",
+      "io.Copy", "tcpConn.CloseWrite", "io.Copy", "tcpLocal.CloseWrite"] := by decide
+theorem skel_runBridgeForward :
+    Skel.runBridgeForward = ["bridge.ReleaseCrossNodeConnection", "bridge.Close", "sourceForwarder.Close",
+      "io.Copy", "tcpConn.CloseWrite", "io.Copy", "closer.CloseWrite", "tcpSource.CloseWrite"] := by decide
 
 /-! ### Re-attached source connections -/
 
